@@ -6,7 +6,10 @@ use super::wake_thread::*;
 
 use std::fmt;
 use std::sync::*;
+#[cfg(desync_verif)] use vsched::sync::{Mutex, Condvar};
+#[cfg(not(desync_verif))]
 use std::thread;
+#[cfg(desync_verif)] use vsched::thread;
 use std::collections::vec_deque::*;
 
 use futures::task;
